@@ -539,6 +539,7 @@ def main(tier, seed, scale=1.0):
 
 def replay(path):
     vbuild.build("asan")
+    vbuild.build("plain")
     if path.endswith(".json"):
         return vcommon.replay_case(PROP, check_case, path)
     binp = vbuild.build_harness("fz_image", "fuzz", ["src/fz_image.c"], extra_ld=["-fsanitize=fuzzer"])
